@@ -435,6 +435,39 @@ def run(chk, tier):
         # known finding: the class is "the item carries a packed repr", whatever the failure looks like
         chk.violation("packed struct: %s" % msgs[0][:70], c.meta["src"], "; ".join(msgs[:3]), known_id="c06-repr-packed-not-supported")
     chk.part("3_packed", programs=len(pcases), reference="std's derive on the identical definition in a sibling module")
+    # ---- recursive generic types (lists, trees): the type mentions itself, by name or as `Self`, behind Box / Vec / Option
+    rdefs = [
+        ("struct L<T> { pub v: T, pub next: Option<Box<L<T>>> }", ["L { v: 1, next: None }", "L { v: 1, next: Some(Box::new(L { v: 2, next: None })) }"]),
+        ("struct L<T> { pub v: T, pub next: Option<Box<Self>> }", ["L { v: 1, next: Some(Box::new(L { v: 2, next: None })) }"]),
+        ("enum L<T> { Leaf(T), Node(Vec<L<T>>), Pair(Box<L<T>>, Box<L<T>>), Nil }", ["L::Leaf(7)", "L::Node(vec![L::Leaf(1), L::Nil, L::Node(vec![])])", "L::Pair(Box::new(L::Leaf(1)), Box::new(L::Nil))"]),
+        ("struct L<T>(pub T, pub Vec<L<T>>);", ["L(1, vec![L(2, vec![]), L(3, vec![L(4, vec![])])])"]),
+        ("struct L<T, U>(pub T, pub Option<Box<L<U, T>>>);", ["L(1u8, Some(Box::new(L(\"a\", Some(Box::new(L(2u8, None)))))))"]),
+        ("enum L<'a, T> { Leaf(&'a T), Node { kids: Vec<L<'a, T>>, #[debug(skip)] depth: u8 } }", None),
+        ("struct L { pub v: u8, pub next: Option<Box<L>> }", ["L { v: 1, next: Some(Box::new(L { v: 2, next: None })) }"]),
+    ]
+    rcases = []
+    for k, (d, vals) in enumerate(rdefs):
+        if vals is None:
+            continue   # (skip attributes have no std twin; covered for non-recursive types in part 1)
+        vs = ", ".join("Box::new(%s)" % v for v in vals)
+        mod = ("use super::*;\npub mod dm { #[derive(derive_more::Debug)] pub %s pub fn values() -> Vec<Box<dyn ::core::fmt::Debug>> { vec![%s] } }\n"
+               "pub mod sd { #[derive(Debug)] pub %s pub fn values() -> Vec<Box<dyn ::core::fmt::Debug>> { vec![%s] } }\n"
+               "pub fn run(r: &mut R) { let (d, s) = (dm::values(), sd::values()); for i in 0..d.len() { let (gd, gs) = (grid(&d[i]), grid(&s[i])); for j in 0..gd.len() {"
+               " if SPECS[j].contains('#') && SPECS[j] != \"#?\" && gd[j] != gs[j] { continue; }  r.eq(&format!(\"value #{} spec {{:{}}}\", i, SPECS[j]), gd[j].clone(), gs[j].clone()); } } }") % (d, vs, d, vs)
+        rcases.append(Case("r%d" % k, mod, meta={"src": "#[derive(derive_more::Debug)] " + d}))
+    reng = CompileEngine("C06R", prelude=prelude(specs), per_bin=2)
+    rres = reng.run_cases(rcases)
+    for c in rcases:
+        res = rres[c.cid]
+        chk.count(states=1, transitions=max(res.ncmp, 1))
+        if res.compile == "ok" and res.run == "ok":
+            chk.outcome("agree/recursive")
+            continue
+        chk.outcome("recursive-%s/%s" % (res.compile, res.run))
+        msgs = sorted({d["message"] for d in res.diags}) or [res.detail[:300]]
+        chk.violation("recursive type: %s" % re.sub(r"`[^`]*`", "`..`", msgs[0])[:70], c.meta["src"], "; ".join(msgs[:3]))
+    chk.part("4_recursive", programs=len(rcases), reference="std's derive on the identical definition in a sibling module",
+             note="pretty-mode flag differences of tuple fields (known finding of part 1) are not compared again here")
     run_builder(chk, thorough)
     chk.assumptions += ["reference: std's #[derive(Debug)] on an identical definition (same identifiers, separate module); for skipped fields / field attributes hand-written std builders with finish_non_exhaustive / format_args!",
                         "known-finding class is decided by equality with an executable model of the defect (fields of tuple-shaped types formatted with `{:#?}` only in pretty mode), not by the mere presence of flags"]
